@@ -1586,6 +1586,8 @@ def post_catch_all_rule(A, fl, rule):
 
 def asgi_rules(A, rule, buffering_rule=None):
     mi = A.model.module('async_drivers.asgi')
+    if buffering_rule and rule == buffering_rule:
+        return _asgi_buffering(A, buffering_rule)
     mr = A.func('async_drivers.asgi.make_response')
     ps = [p for p in A.paths(A.enum(follow_handlers=False), mr) if p.outcome != 'cut']
     A.floor(rule, 'asgi.make_response paths', len(ps), 4)
@@ -1650,7 +1652,13 @@ def asgi_rules(A, rule, buffering_rule=None):
         elif has:
             A.ok(rule + '.environ-total', 'ASGI: translate_request returns a full environ',
                  A.site(tr))
+    if buffering_rule:
+        _asgi_buffering(A, buffering_rule)
+
+
+def _asgi_buffering(A, buffering_rule):
     # body accumulation before the size gate (C14.5)
+    tr = A.func('async_drivers.asgi.translate_request')
     if buffering_rule:
         acc = [n for n in ast.walk(tr.node) if isinstance(n, ast.AugAssign) and
                isinstance(n.target, ast.Name) and 'body' in ast.unparse(n.value)]
